@@ -431,7 +431,7 @@ pub fn walk(a: &Args) -> i32 {
 // random histories
 
 fn rand_token(rng: &mut StdRng) -> String {
-    const T: [&str; 14] = ["a", "b", "c", "x", "", "0", "1", "2", "a/b", "m~n", "~", "/", "~1", "k.9"];
+    const T: [&str; 16] = ["a", "b", "c", "x", "", "0", "1", "2", "a/b", "m~n", "~", "/", "~1", "k.9", "mnt", "reg"];
     T[rng.gen_range(0..T.len())].to_string()
 }
 fn rand_value(rng: &mut StdRng, depth: usize) -> Value {
@@ -454,7 +454,9 @@ fn rand_value(rng: &mut StdRng, depth: usize) -> Value {
 /// a pointer that tends to hit existing structure: walk the mirror document
 fn rand_tokens(rng: &mut StdRng, mirror: &Value) -> Vec<String> {
     let mut toks = vec![];
-    let mut cur = Some(mirror);
+    // some pointers begin with the tokens of the mount prefix itself ("/mnt/reg/..." inside the registry mounted at /mnt/reg)
+    if rng.gen_bool(0.12) { toks.push("mnt".to_string()); toks.push("reg".to_string()); if rng.gen_bool(0.3) { toks.push("mnt".to_string()); toks.push("reg".to_string()); } }
+    let mut cur = if toks.is_empty() { Some(mirror) } else { None };
     for _ in 0..rng.gen_range(0..7) {
         let t = match cur {
             Some(Value::Object(m)) if !m.is_empty() && rng.gen_bool(0.75) => m.keys().nth(rng.gen_range(0..m.len())).unwrap().clone(),
